@@ -181,7 +181,10 @@ def property_obligations_one(name):
     src = strip_comments(open(path).read())
     names = [m.group(2) for m in THM_RE.finditer(src)]
     printed = re.findall(r"Print Assumptions\s+([A-Za-z0-9_']+)\s*\.", src)
-    cmd = ["coqc", "-Q", "theories", "Grog", "-Q", "properties", "GrogProps", "properties/%s.v" % name]
+    # the compiled file goes to a scratch path: concurrent checks (seed sweeps, background runs) never write the same .vo
+    vo = os.path.join(scratch(), "props-%d" % os.getpid(), name + ".vo")
+    os.makedirs(os.path.dirname(vo), exist_ok=True)
+    cmd = ["coqc", "-Q", "theories", "Grog", "-Q", "properties", "GrogProps", "-o", vo, "properties/%s.v" % name]
     t = time.time()
     p = run(cmd, cwd=COQ, timeout=1200)
     out = p.stdout
